@@ -194,6 +194,27 @@ pub fn one_scenario(rep: &Report, idx: usize, sc: &Scenario, release: bool, keep
                 }
             }
         }
+        // ... and with a write that keeps failing from one point on (the disk is full), at the
+        // last write of the update and at a random one: success must still mean exact.
+        if moved && !o.writes.is_empty() && !release {
+            let mut frng = Rng::new(sc.src_seed ^ 0x3fa1);
+            let w = o.write_calls.max(1);
+            let mut ks = vec![w - 1, frng.usize_below(w)];
+            ks.dedup();
+            for k in ks {
+                cc::prepare_output(&b, sc);
+                let of = cc::run_clone(&dir, &b, sc, &format!("wf{}", k), &Faults { fault: Some(format!("0,{},errno,{},sticky", k, libc::ENOSPC)), ..Default::default() });
+                rep.eval();
+                if of.exit == Exit::Timeout || !of.fault_fired {
+                    rep.count("process.write_fault_not_reached", 1);
+                    continue;
+                }
+                rep.count("process.write_faults_fired", 1);
+                if of.exit.ok() {
+                    cc::judge_final(&b, sc, &of).map_err(|e| format!("write #{} of {} kept failing (ENOSPC) and the in-place clone still reported success: {}", k, w, e))?;
+                }
+            }
+        }
         rep.sample_if(idx % 23 == 0, || {
             json!({"scenario": sc.to_json(), "prior_len": plen, "source_len": b.source.len(), "reused_chunks": b.pred.from_prior.len(),
                    "in_place": b.pred.in_place.len(), "fetch": b.pred.fetch.len(), "writes": o.writes.len()})
